@@ -260,7 +260,7 @@ func preds(thorough bool, emit func(p pred)) {
 	}
 	for _, s := range sets {
 		for stop := 0; stop <= 10; stop++ {
-			if len(s) == 2 && stop != 4 && stop != 6 && stop != 10 {
+			if len(s) == 2 && stop != 4 && stop != 5 && stop != 6 && stop != 8 && stop != 10 {
 				continue
 			}
 			for _, logging := range []bool{false, true} {
